@@ -185,7 +185,7 @@ impl P {
                     out.push((
                         Ev::Spawn(c.id),
                         Choice {
-                            label: format!("PaySpawnPart(cmd{})", c.id),
+                            label: format!("PaySpawnPart({})", s.cmd_label(c.id)),
                             cost: 0,
                         },
                     ));
@@ -194,7 +194,7 @@ impl P {
                     out.push((
                         Ev::End(c.id, o.clone()),
                         Choice {
-                            label: format!("PayEnd(cmd{},{})", c.id, o.label()),
+                            label: format!("PayEnd({},{})", s.cmd_label(c.id), o.label()),
                             cost: 0,
                         },
                     ));
